@@ -51,8 +51,28 @@ pub enum ImplResult {
     Ok { tuple: Vec<T>, bound: Vec<usize> },
 }
 
+/// how often each variable occurs in the case
+fn occurrences(c: &Case) -> Vec<usize> {
+    let mut occ = vec![];
+    for (a, b) in &c.history {
+        a.vars(&mut occ);
+        b.vars(&mut occ);
+    }
+    c.u.vars(&mut occ);
+    c.v.vars(&mut occ);
+    (0..c.nvars).map(|i| occ.iter().filter(|k| **k == i).count()).collect()
+}
+
 pub fn run_impl(c: &Case) -> ImplResult {
     let mut vars = Vars::new(c.nvars);
+    // a variable with an odd index that is written exactly once in the case is built as the ANONYMOUS variable `_`
+    // (`LTerm::any()`): unification must treat it as any other variable (seeded change C01-h: a shortcut for `_`
+    // elements).  The rule is a function of the case line, so replays agree.
+    for (i, n) in occurrences(c).iter().enumerate() {
+        if i % 2 == 1 && *n == 1 {
+            vars.v[i] = LT::any();
+        }
+    }
     let mut st: St = State::new(Default::default());
     for (a, b) in &c.history {
         let (la, lb) = (vars.build(a), vars.build(b));
@@ -278,6 +298,31 @@ fn gen_case(r: &mut Rng, exhaust_small: bool) -> Case {
     } else {
         (u, v)
     };
+    // singletons: some leaves become variables written only once (half of them anonymous, see `run_impl`), also inside the
+    // terms of the history, so that a later unification reaches them through a binding
+    let mut nvars = nvars;
+    let (mut history, mut u, mut v) = (history, u, v);
+    if !exhaust_small && r.chance(1, 2) {
+        fn sprinkle(t: &T, r: &mut Rng, next: &mut usize, budget: &mut usize) -> T {
+            match t {
+                T::Cons(h, tl) => {
+                    let h2 = sprinkle(h, r, next, budget);
+                    T::cons(h2, sprinkle(tl, r, next, budget))
+                }
+                T::Comp(g, a) if *g != 4 => T::Comp(*g, a.iter().map(|x| sprinkle(x, r, next, budget)).collect()),
+                T::Num(_) | T::Var(_) if *budget > 0 && r.chance(1, 5) => {
+                    *budget -= 1;
+                    *next += 1;
+                    T::Var(*next - 1)
+                }
+                other => other.clone(),
+            }
+        }
+        let mut budget = 3;
+        history = history.iter().map(|(a, b)| (sprinkle(a, r, &mut nvars, &mut budget), b.clone())).collect();
+        u = sprinkle(&u, r, &mut nvars, &mut budget);
+        v = sprinkle(&v, r, &mut nvars, &mut budget);
+    }
     if r.chance(1, 2) {
         Case { nvars, history, u, v }
     } else {
@@ -289,6 +334,10 @@ fn corpus() -> Vec<&'static str> {
     vec![
         // unit tests' shapes and hand-written edge cases
         "unify 2 0 v0 cons i1 cons i2 cons i3 cons v0 nil",
+        // `_` elements (v1, v3: written once, odd index) reached a second time through the binding of v0
+        "unify 2 1 v0 cons v1 cons i2 nil v0 cons i1 cons i2 nil",
+        "unify 4 1 v0 cons v1 nil cons v0 cons v0 nil cons cons i1 nil cons cons i2 nil nil",
+        "unify 4 2 v0 cons v1 nil v0 cons i1 nil v0 cons i2 nil",
         "unify 2 0 cons i1 cons i2 cons i3 cons v0 nil v0",
         "unify 3 2 v1 v0 v2 cons i1 nil v1 v2",
         "unify 3 1 v0 cons v1 v2 v1 comp0 cons v0 cons i1 nil",
